@@ -262,10 +262,9 @@ func ruleA11(r *Run, p *Prog) {
 	}
 	known := map[string]*agg{}
 	nStores := 0
-	for _, f := range p.ModFns {
-		if pkgRel(f) != "" {
-			continue
-		}
+	// stores are judged in the functions that are judged on their own: a private helper such as
+	// "return a copy of l with this context" is part of each caller, where the stored slice's origin is known
+	for _, f := range p.RootViews([]string{""}, "", nil) {
 		eachInstr(f, func(b *ssa.BasicBlock, i int, in ssa.Instruction) {
 			sx, ok := in.(*ssa.Store)
 			if !ok {
@@ -345,6 +344,7 @@ func ruleA11(r *Run, p *Prog) {
 			fa, ok := sx.Addr.(*ssa.FieldAddr)
 			return ok && fieldVar(fa) == ctxField
 		}
+		m = p.View(m, "", nil)
 		leak, path := pathExists(m, nil, isReturn, isCtxStore, nil)
 		r.Ob("A11", FnName(m)+"/fresh-context-on-every-path", p.Pos(m.Pos()), !leak, true, tern(!leak, "every path gives the returned Context a newly stored context buffer", "some path returns a Context that still carries the receiver's own context slice: field adders then append into the parent's backing array"+pathHint(p, path)))
 	}
@@ -396,6 +396,7 @@ func ruleA12Reset(r *Run, p *Prog, fnName, tname string) {
 	if !r.Anchor(f != nil && named != nil, "A12", fnName+" / "+tname) {
 		return
 	}
+	f = p.View(f, "", nil)
 	st := named.Underlying().(*types.Struct)
 	// the recycled object: result of Pool.Get asserted to *T
 	var obj ssa.Value
@@ -433,6 +434,7 @@ func ruleA12Copy(r *Run, p *Prog) {
 	if !r.Anchor(f != nil && named != nil, "A12", "Logger.Output") {
 		return
 	}
+	f = p.View(f, "", nil)
 	st := named.Underlying().(*types.Struct)
 	// if Output simply copies the receiver (l.w = …; return l) every field is carried: detect by
 	// the returned value being the receiver's spill
@@ -450,7 +452,25 @@ func ruleA12Copy(r *Run, p *Prog) {
 		r.Ob("A12", FnName(f)+"/shape", p.Pos(f.Pos()), false, true, "cannot find the value Output returns (undecided)")
 		return
 	}
+	// the result may be assembled in another local and copied over as a whole (a helper returning
+	// the duplicate, inlined): follow whole-struct copies
+	resultAllocs := map[ssa.Value]bool{resultAlloc: true}
 	init := allocInit(resultAlloc)
+	for hops := 0; hops < 4; hops++ {
+		ld, ok := init.(*ssa.UnOp)
+		if !ok || ld.Op != token.MUL {
+			break
+		}
+		inner, ok := ld.X.(*ssa.Alloc)
+		if !ok || resultAllocs[inner] {
+			break
+		}
+		resultAllocs[inner] = true
+		init = allocInit(inner)
+		if init == nil {
+			break
+		}
+	}
 	if _, isParam := init.(*ssa.Parameter); isParam {
 		for i := 0; i < st.NumFields(); i++ {
 			r.Ob("A12", FnName(f)+"/copy:"+st.Field(i).Name(), p.Pos(f.Pos()), true, true, "result starts as a copy of the receiver")
@@ -474,19 +494,23 @@ func ruleA12Copy(r *Run, p *Prog) {
 		fld := st.Field(i)
 		stored := false
 		fromSame := false
+		fromDest := false
 		eachInstr(f, func(b *ssa.BasicBlock, k int, in ssa.Instruction) {
 			switch x := in.(type) {
 			case *ssa.Store:
-				if fa, ok := x.Addr.(*ssa.FieldAddr); ok && fieldVar(fa) == fld && fa.X == ssa.Value(resultAlloc) {
+				if fa, ok := x.Addr.(*ssa.FieldAddr); ok && fieldVar(fa) == fld && resultAllocs[fa.X] {
 					stored = true
 					if mentionsRecvField(x.Val, f, fld.Name(), 0) {
 						fromSame = true
+					}
+					if len(f.Params) > 1 && derivesFromValue(x.Val, f.Params[1], 0) {
+						fromDest = true
 					}
 				}
 			case *ssa.Call:
 				// copy(l2.f, l.f)
 				if builtinName(&x.Call) == "copy" && len(x.Call.Args) == 2 {
-					if dfv, dbase := loadedField(x.Call.Args[0]); dfv == fld && dbase == ssa.Value(resultAlloc) {
+					if dfv, dbase := loadedField(x.Call.Args[0]); dfv == fld && resultAllocs[dbase] {
 						if mentionsRecvField(x.Call.Args[1], f, fld.Name(), 0) {
 							fromSame = true
 						}
@@ -501,6 +525,8 @@ func ruleA12Copy(r *Run, p *Prog) {
 			ok, d = true, "copied from the receiver's "+fld.Name()
 		case ctorSets[fld.Name()] && !stored:
 			ok, d = true, "set by the constructor (destination-specific)"
+		case stored && fromDest && !fromSame:
+			ok, d = true, "set from Output's own argument (destination-specific)"
 		case stored:
 			ok, d = false, "field "+fld.Name()+" of the result is set, but not from the receiver's "+fld.Name()
 		default:
@@ -572,4 +598,45 @@ func ctorLeavesZero(c *ssa.Call, fv *types.Var) bool {
 		}
 	})
 	return fromLit && !sets
+}
+
+// derivesFromValue: v is computed from root through calls, conversions, assertions and phis.
+func derivesFromValue(v, root ssa.Value, depth int) bool {
+	if v == nil || depth > 8 {
+		return false
+	}
+	if v == root {
+		return true
+	}
+	switch x := v.(type) {
+	case *ssa.Call:
+		for _, a := range x.Call.Args {
+			if derivesFromValue(a, root, depth+1) {
+				return true
+			}
+		}
+	case *ssa.MakeInterface:
+		return derivesFromValue(x.X, root, depth+1)
+	case *ssa.ChangeInterface:
+		return derivesFromValue(x.X, root, depth+1)
+	case *ssa.ChangeType:
+		return derivesFromValue(x.X, root, depth+1)
+	case *ssa.TypeAssert:
+		return derivesFromValue(x.X, root, depth+1)
+	case *ssa.Extract:
+		return derivesFromValue(x.Tuple, root, depth+1)
+	case *ssa.Phi:
+		for _, e := range x.Edges {
+			if derivesFromValue(e, root, depth+1) {
+				return true
+			}
+		}
+	case *ssa.UnOp:
+		if al, ok := x.X.(*ssa.Alloc); ok {
+			if i := allocInit(al); i != nil {
+				return derivesFromValue(i, root, depth+1)
+			}
+		}
+	}
+	return false
 }
